@@ -44,24 +44,17 @@ def impl_split(ts):
 
 
 # ---------------------------------------------------------------- model side
-def coq_case(ts, excluded):
-    es = S.coq_edges(ts)
-    ins, rem = S.coq_index(ts)
-    L = cZ(int(ts.sequence_length))
-    return ("(let es := %s in let ins := %s in let rem := %s in "
-            "(valid_tablesb %s es ins rem, split_disjoint_nodes es %s %s ins rem))"
-            % (es, ins, rem, L, S.coq_bools(excluded), S.coq_muts(ts)))
+def coq_case(k, ts, excluded):
+    defs = S.coq_table_defs(k, ts) + "Definition excl%d := %s.\n" % (k, S.coq_bools(excluded))
+    d = {"k": k}
+    term = ("(valid_tablesb L%(k)d es%(k)d ins%(k)d rem%(k)d, "
+            "split_disjoint_nodes es%(k)d excl%(k)d muts%(k)d ins%(k)d rem%(k)d)" % d)
+    return defs, term
 
 
 def run_model(ctx, items):
-    out = []
-    for i in range(0, len(items), 300):
-        chunk = items[i:i + 300]
-        body = "".join("Eval vm_compute in %s.\n" % coq_case(ts, ex) for ts, ex in chunk)
-        res = ctx.coq_eval(body, requires=("lib.Tables", "model.Sweep", "model.Split"), tag="split")
-        assert len(res) == len(chunk), (len(res), len(chunk))
-        out.extend(res)
-    return out
+    texts = [coq_case(k, ts, ex) for k, (ts, ex) in enumerate(items)]
+    return S.coq_run_cases(ctx, texts, ("lib.Tables", "model.Sweep", "model.Split"), "split")
 
 
 # ---------------------------------------------------------------- oracle
